@@ -265,6 +265,24 @@ def Dir.entriesL (pre : List Char) : List Dir → List (List Char)
   | d :: ds => Dir.entries (joinSlash pre d.name) d ++ Dir.entriesL pre ds
 end
 
+mutual
+/-- the directories that hold an `__init__.py`, as paths below the root -/
+def Dir.initPaths (pre : Path) : Dir → List Path
+  | .mk _ init _ _ subs => (match init with | some _ => [pre] | none => []) ++ Dir.initPathsL pre subs
+def Dir.initPathsL (pre : Path) : List Dir → List Path
+  | [] => []
+  | d :: ds => Dir.initPaths (pre ++ [d.name]) d ++ Dir.initPathsL pre ds
+end
+
+mutual
+/-- the files below `_data/`: (directory, file name) -/
+def Dir.dataPaths (pre : Path) : Dir → List (Path × Name)
+  | .mk _ _ data _ subs => data.map (fun d => (pre, d.1)) ++ Dir.dataPathsL pre subs
+def Dir.dataPathsL (pre : Path) : List Dir → List (Path × Name)
+  | [] => []
+  | d :: ds => Dir.dataPaths (pre ++ [d.name]) d ++ Dir.dataPathsL pre ds
+end
+
 /-! ## the writer -/
 
 /-- `obj._idtuple`: the model's name followed by the names down to the object -/
